@@ -58,7 +58,7 @@ where
                     let method: String = String::from(req.method.as_ref());
                     let mut call = Call::new(&mut client_writer, &req);
                     call.reply_interface_not_found(Some(method))?;
-                    return Ok(false);
+                    continue;
                 }
                 Some(x) => x,
             };
@@ -82,7 +82,7 @@ where
                         _ => {
                             let mut call = Call::new(&mut client_writer, &req);
                             call.reply_interface_not_found(Some(iface))?;
-                            return Ok(false);
+                            continue;
                         }
                     };
                 }
@@ -94,7 +94,7 @@ where
                 _ => {
                     let mut call = Call::new(&mut client_writer, &req);
                     call.reply_interface_not_found(Some(iface))?;
-                    return Ok(false);
+                    continue;
                 }
             };
 
